@@ -1,6 +1,8 @@
 """C11 — ambiguous specifications are rejected, unambiguous ones accepted.
 Theorems: coq/Props/Properties_C11.v.  Model: coq/Fix/Tags.v (libasn1fix's
-decision), spec: coq/Fix/Distinct.v (X.680 distinctness, from the property text).
+decision) behind coq/Fix/ComponentsOf.v (COMPONENTS OF / extensible ENUMERATED:
+xcheck = check after asn1c's expansion), spec: coq/Fix/Distinct.v (X.680
+distinctness, from the property text) after the X.680 expansion of ComponentsOf.v.
 Tie: modules generated from the type algebra (valid ones and single-fault
 injections at every position/pair) are printed as ASN.1, compiled one by one
 with the asn1c built from the repository working tree (`asn1c -S <skeletons>
@@ -1012,17 +1014,17 @@ def main(tier):
         run.sample({"label": cases[i][0], "asn1": texts[i], "model": mo[i], "asn1c": {k: results[i][k] for k in ("rc", "verdict", "classes", "nfiles")}})
     tb = ["Coq 8.16.1 kernel + vm_compute (refuted witnesses only)",
           "axioms under Print Assumptions: " + (", ".join(sorted(axioms)) or "none (Closed under the global context)"),
-          "extraction: ExtrOcamlBasic only; OCaml 4.13.1; ocaml/drv_c11.ml (token parser for modules)",
+          "extraction: ExtrOcamlBasic only; OCaml 4.13.1; ocaml/drv_c11.ml (token parser for modules; structural comparison of two extracted expansions for the finding flags cofdup/cofext)",
           "checks/c11.py: generator, ASN.1 printer, classification of asn1c diagnostics by message text, finding predicates (extracted from coq/Fix/Distinct.v: has_tagref/has_choiceref/enum_mixed; compile_ends)",
           "the asn1c parser (the printed sublanguage), gcc build of the repository working tree",
           "executable oracle distinct_specb uses reference-chain depth = number of definitions + 1"]
     return run.finish("proof", (nthm, ndis), trusted_base=tb,
                       checker_cmd="make -C /verif all && coqc -Q coq A1 coq/Props/Properties_C11.v",
                       extra_cov={"theorems": names,
-                                 "rule": "fixed witnesses + spec-valid random bases + single-fault injections (collision kinds x every component pair x plain/auto/manual/run variants, duplicate identifier at every pair, duplicate enumeration name/value at every pair, dangling reference at every component/alias/element), round-robin over the catalogue up to the tier's budget; one asn1c process per module",
+                                 "rule": "fixed witnesses + spec-valid random bases (with COMPONENTS OF, large and extensible enumerations) + single-fault injections (collision kinds x every component pair x plain/auto/manual/run variants, duplicate identifier at every pair, duplicate enumeration name/value at every pair, dangling reference at every component/alias/element; COMPONENTS OF of six auxiliary earlier types x every SEQUENCE/SET site x every position x E/I/A x fault (inherited identifier, inherited tag, universal tag, automatic tagging over inherited tags, twice, additions not copied, nested extension, inside additions); enumerations over 15 value sets around 2^31/2^32/2^63/2^64/2^127 x valid/duplicate at every pair x root/after the marker), round-robin over the catalogue up to the tier's budget; one asn1c process per module",
                                  "traces_validated_against_impl": len(cases)},
                       assumptions=["model of libasn1fix is hand-written; tied by differential runs only on the generated modules",
-                                   "single-module specifications of the algebra in notes/design/C11.md; no constraints, parameterization, IMPORTS, COMPONENTS OF, ANY, SET OF",
+                                   "single-module specifications of the algebra in notes/design/C11.md; no constraints, parameterization, IMPORTS, ANY, SET OF; COMPONENTS OF only of earlier definitions; extensible ENUMERATED only fully valued",
                                    "diagnostic classes are recognised by message text"])
 
 
